@@ -224,6 +224,12 @@ impl Assembler {
         self.bytes_read
     }
 
+    /// (buffered, allocated) byte counts, for verification probes
+    #[cfg(feature = "verif")]
+    pub(super) fn verif_buffered(&self) -> (usize, usize) {
+        (self.buffered, self.allocated)
+    }
+
     /// Discard all buffered data
     pub(super) fn clear(&mut self) {
         self.data.clear();
